@@ -168,6 +168,14 @@ def expected_frame(fn, own, ncall, ev, nstates):
         exp['tmpl'] = ('tao::pegtl::internal::signed_action_action' if own['A'] == 1 else 'tao::pegtl::nothing', 'tao::pegtl::normal')
     elif tn == T + 'signed_rule':
         exp['tmpl'] = ('tao::pegtl::nothing', 'tao::pegtl::normal'); exp['A'] = 1
+    elif tn == T + 'trace':
+        # documented design of the trace action (contrib/trace.hpp, doc/Control-and-Debug.md): unless the tracer already is the last state, the rule is
+        # matched under state_control< Control > with a fresh tracer appended to the states
+        tracer = first_type(ca)
+        last = (fn['params'][-1]['t'] if len(fn['params']) > 1 else '').replace(' &', '').strip()
+        if last != tracer:
+            exp['tmpl'] = (exp['tmpl'][0], 'tao::pegtl::state_control<%s>::type' % exp['tmpl'][1])
+            exp['states'] = exp['states'] + (('tmp', tracer),)
     if tn in (I + 'state', T + 'change_state', T + 'change_action_and_state'):
         exp['states'] = (('local', first_type(ca)),)
     elif tn in (T + 'change_states', T + 'change_action_and_states'):
